@@ -89,8 +89,9 @@ def setup() -> None:
     # parser pulls from): pre-empted inside it only in "deep" runs (a quarter of the runs)
     import jinja2.lexer as LX
 
-    T.install_deep([v for k, v in vars(LX.Lexer).items() if callable(v) and k not in ("__init__", "_normalize_newlines")]
-                   + [v for v in vars(LX.TokenStream).values() if callable(v)])
+    # (every function of the lexer module, so helpers a change adds are pre-emption regions too; the few that the line
+    # filter above already covers are left to it)
+    T.install_deep([f for f in T.module_functions(LX) if f.__code__.co_qualname not in keep_lexer])
     U.Lock = T.SimLock
     T.neutralise_real_locks()
     T.install_threading_factories()
@@ -331,6 +332,125 @@ def run(tape: Tape) -> Outcome:
         if gc_was:
             gc.enable()
     return out
+
+def run_micro(tape: Tape) -> Outcome:
+    """Two threads, two DIFFERENT configurations, one tiny source each (a multi-line string literal, a block, a comment):
+    each thread creates its environment, compiles and renders - so both go through get_lexer, the shared Lexer objects
+    and tokenising at the same time.  Besides a drawn plan, every step of the serial run that lies in lexer-cache /
+    lexer / tokenising code is tried as a single pre-emption of either thread."""
+    setup()
+    import jinja2
+
+    out = Outcome()
+    ia = tape.draw(len(SYNTAXES))
+    ib = (ia + 1 + tape.draw(len(SYNTAXES) - 1)) % len(SYNTAXES)
+    sxs = [SYNTAXES[ia], SYNTAXES[ib]]
+    cfgs = [_cfg_of(sx, bool(tape.draw(2))) for sx in sxs]
+    if tape.draw(2):
+        cfgs[1]["newline_sequence"] = ("\r\n", "\r", "\n")[tape.draw(3)]
+    lex_cap = (50, 1, 2)[tape.draw(3)]
+    via_template = [bool(tape.draw(3) == 2) for _ in sxs]  # Template(...) instead of Environment(...).from_string
+
+    def src_of(sx):
+        return (f"{sx.bs} if n1 is defined {sx.be}\n  <{sx.vs} 'p\nq' ~ s1 {sx.ve}>\n{sx.bs} endif {sx.be}  \n"
+                f"{sx.cs} c {sx.ce}\n{sx.vs} \"a\nb\" {sx.ve}end\n")
+
+    sources = [src_of(sx) for sx in sxs]
+    data = make_data_seed(tape.draw(1 << 30, "d"))
+
+    def render(i):
+        if via_template[i]:
+            return _render(lambda: jinja2.Template(sources[i], **cfgs[i]).render(data))
+        return _render(lambda: jinja2.Environment(**cfgs[i]).from_string(sources[i]).render(data))
+
+    clear_process_caches()
+    refs = []
+    for i in range(2):
+        clear_process_caches()
+        refs.append(render(i))
+
+    def execute(sched_tape, plan, serial, record_regions=False):
+        clear_process_caches()
+        _set_lexer_capacity(lex_cap)
+        sched = T.Sched(sched_tape, step_cap=2_000_000, line_level=True, record_regions=record_regions, wall_cap=60.0)
+        sched.deep = True
+        T.set_deep(True)
+        results = [None, None]
+
+        def body(i):
+            def fn():
+                results[i] = render(i)
+            return fn
+
+        for i in range(2):
+            sched.spawn(body(i), f"T{i}")
+        sched.plan(plan)
+        if serial:
+            sched.run_serial()
+        else:
+            sched.run()
+        return sched, results
+
+    gc_was = gc.isenabled()
+    gc.disable()
+    try:
+        s0, r0 = execute(Tape(streams={}), [], True, record_regions=True)
+        plans = []
+        for tid in (0, 1):
+            regs = s0.threads[tid].regions or []
+            idx = [i for i, r in enumerate(regs) if r in ("lru", "shared", "lock", "compile")]
+            if len(idx) > 64:
+                idx = idx[:: max(len(idx) // 64, 1)][:64]
+            plans += [[(tid, 1 + i, 0)] for i in idx]
+        n = 0
+        for plan in plans:
+            sched, results = execute(tape, plan, False)
+            n += 1
+            if sched.abort == "deadlock":
+                out.violate(("deadlock", "micro"), trace=sched.trace[-5:])
+                break
+            if sched.abort:
+                raise T.HarnessError("run aborted: " + sched.abort)
+            for st in sched.threads:
+                if st.exc is not None:
+                    raise T.HarnessError(f"harness thread raised {st.exc!r}")
+            bad = [i for i in range(2) if results[i] != refs[i]]
+            if bad:
+                i = bad[0]
+                out.violate(("render-differs", "micro", results[i][0], refs[i][0], "threads2"), thread=i, got=results[i],
+                            expected=refs[i], plan=plan, serial_ok=r0[i] == refs[i])
+                break
+            # quiescence: whatever the overlapping runs left in process-global caches, each configuration renders as before
+            post = [render(1), render(0)]
+            if post[0] != refs[1] or post[1] != refs[0]:
+                i = 1 if post[0] != refs[1] else 0
+                out.violate(("render-differs", "micro-after-quiescence", (post[0] if i == 1 else post[1])[0], refs[i][0], "threads2"),
+                            config=i, got=post[0] if i == 1 else post[1], expected=refs[i], plan=plan)
+                break
+        out.evals = max(n, 1)
+        out.count("micro_runs")
+        out.count("micro_schedules", n)
+        out.decoded = {"kind": "micro", "configs": cfgs, "sources": sources, "via_Template": via_template,
+                       "lexer_cache_capacity": lex_cap, "schedules_tried": n}
+        out.trace = digest([n, [r_ for r_ in r0], lex_cap])
+        if out.sig is None and n:
+            out.case = digest(["micro", sources, [_key(c) for c in cfgs], via_template, lex_cap])
+    finally:
+        _set_lexer_capacity(50)
+        T.set_deep(False)
+        if gc_was:
+            gc.enable()
+    return out
+
+
+_run_histories = run
+
+
+def run(tape: Tape) -> Outcome:  # noqa: F811
+    if tape.draw(8, "m") == 7:
+        return run_micro(tape)
+    return _run_histories(tape)
+
 
 from sim.core import guarded as _guarded  # noqa: E402
 
